@@ -61,7 +61,8 @@ def install():
         if _STATE["calls"] is not None:
             fr = sys._getframe(1)  # noqa: SLF001
             rec = {"fn": getattr(fun, "__qualname__", repr(fun)), "mode": mode, "file": _rel(fr.f_code.co_filename),
-                   "line": fr.f_lineno, "handle": handle_state(self), "out": "ok", "ws": id(self)}
+                   "line": fr.f_lineno, "handle": handle_state(self), "out": "ok", "ws": id(self),
+                   "rp0": bool(self._repack), "repack": False}
             _STATE["calls"].append(rec)
         try:
             return orig(self, fun, *args, mode=mode, **kwargs)
@@ -69,6 +70,9 @@ def install():
             if rec is not None:
                 rec["out"] = exc_kind(e)
             raise
+        finally:
+            if rec is not None:
+                rec["repack"] = bool(self._repack) and not rec["rp0"]   # the routine set the repack flag
 
     _io_call.__wrapped__ = orig
     Workspace._io_call = _io_call  # noqa: SLF001
